@@ -29,8 +29,12 @@ def _setup(spec):
             x0, p0 = rng.normal(size=spec["n"]) * 0.5, rng.normal(size=spec["n"]) * 10 + 5
         N = model.nstates()
         rho0 = random_rho(rng, N, "pure") if spec["cls"] == "Ehrenfest" else 0
-        args = (model, x0, p0, rho0)
         kw = {"state0": 0} if spec["cls"] == "Ehrenfest" else {}
+        if spec.get("rho") == "mixed":
+            # a mixed (impure) initial density matrix: tr rho^2 < 1, so any "renormalisation" of rho shows
+            rho0 = random_rho(rng, N, "mixed")
+            kw = {"state0": 0}
+        args = (model, x0, p0, rho0)
         if spec["cls"] == "TrajectorySH":
             kw["zeta_list"] = [float(z) for z in spec["zetas"]]
     return model, cls, args, kw
@@ -179,13 +183,15 @@ def run(ctx):
         spec = dict(cls=cls, N=int(rng.integers(2, 4)), n=int(rng.integers(1, 3)), model_seed=int(rng.integers(1, 10 ** 6)),
                     dt=float(rng.choice([2.0, 5.0])), t0=float(rng.choice([0.0, 3.5])), K=K, rule=["max_steps", "max_time"][(i // 3) % 2],
                     pitch=int(rng.integers(1, 17)), zetas=[float(v) for v in 0.2 + 0.8 * rng.random(K + 4)])
+        if i % 4 == 1 and cls != "AdiabaticMD":
+            spec["rho"] = "mixed"
         if i % 6 == 5:
             spec.update(builtin=str(rng.choice(["simple", "dual", "extended"])), x0=-3.0, p0=float(rng.uniform(8, 20)))
         ks = range(1, K) if ctx.thorough() else sorted(set(int(v) for v in rng.integers(1, K, size=3)))
         for k in ks:
             a = dict(spec, k=int(k))
             ok, obs, req, text = oracle_restart(a)
-            ctx.case((cls, spec["rule"], int(k), spec["pitch"], bool(obs.get("gauge_differs"))),
+            ctx.case((cls, spec["rule"], int(k), spec["pitch"], bool(obs.get("gauge_differs")), spec.get("rho", "pure")),
                      {"check": "restart", "spec": {kk: vv for kk, vv in a.items() if kk != "zetas"}, "result": {kk: obs.get(kk) for kk in ("uninterrupted", "restarted", "gauge_differs")}})
             ctx.count("restart:%s:%s" % (cls, spec["rule"]))
             if ok:
